@@ -64,19 +64,25 @@ func genC12(seed uint64, tier string) C12Cfg {
 	np := r.Range(2, 5)
 	failKinds := []string{"sg-missing", "sg-cancel", "sg-missing", "sg-overlap"}
 	var lastFailedTopic string
+	kgFailed := false
 	for i := 0; i < np; i++ {
 		var ph C12Phase
 		ph.Missing = r.Intn(thr + 1)
 		ph.CancelAt = r.Intn(60)
 		ph.Outsider = r.Bool(0.3)
 		switch {
+		case kgFailed && r.Bool(0.8):
+			ph.Kind = "kg-ok" // a key generation after a failed one
+			ph.Missing = r.Intn(n)
+			kgFailed = false
 		case lastFailedTopic != "" && r.Bool(0.8):
 			ph.Kind = "sg-ok"
 			ph.Topics = []string{lastFailedTopic}
 			lastFailedTopic = ""
-		case r.Bool(0.12):
-			ph.Kind = pickStr(r, []string{"kg-ok", "kg-ok", "kg-missing"})
+		case r.Bool(0.16):
+			ph.Kind = pickStr(r, []string{"kg-ok", "kg-ok", "kg-missing", "kg-cancel"})
 			ph.Missing = r.Intn(n)
+			kgFailed = ph.Kind != "kg-ok"
 		case r.Bool(0.2) && len(pool) >= 2:
 			ph.Kind = "sg-concurrent"
 			p := r.Perm(len(pool))
@@ -93,8 +99,16 @@ func genC12(seed uint64, tier string) C12Cfg {
 		}
 		c.Phases = append(c.Phases, ph)
 	}
+	if kgFailed {
+		c.Phases = append(c.Phases, C12Phase{Kind: "kg-ok"})
+	}
 	if lastFailedTopic != "" {
 		c.Phases = append(c.Phases, C12Phase{Kind: "sg-ok", Topics: []string{lastFailedTopic}})
+	}
+	// silent mode: the member selection callback takes simulated time in a third of the runs (the window between
+	// the first synchronisation and the registration of the handlers, for KeyGen as well as for Sign)
+	if rp := prng.Derive(seed, "pick-delay"); c.Deploy.Silent && rp.Bool(0.35) {
+		c.Deploy.PickDelayMs = rp.Range(1, 40)
 	}
 	// a third of the runs: the signing backend's Init takes simulated time, so that cancellations, deadlines and
 	// messages can land between the end of the first synchronisation and the registration of the handlers
@@ -193,17 +207,23 @@ func runC12(t *testing.T, spec RunSpec) *RunResult {
 			}
 			var members []uint16
 			switch ph.Kind {
-			case "kg-ok", "kg-missing":
+			case "kg-ok", "kg-missing", "kg-cancel":
 				members = append(members, cfg.Deploy.IDs...)
 				for i, id := range cfg.Deploy.IDs {
 					if ph.Kind == "kg-missing" && i == ph.Missing%cfg.N {
 						continue
 					}
-					exp := "ok"
+					exp, role := "ok", "kg"
 					if ph.Kind == "kg-missing" {
 						exp = "err"
 					}
-					add("DKG", id, exp, "kg", deadline, true)
+					if ph.Kind == "kg-cancel" {
+						exp = "any"
+						if i == ph.Missing%cfg.N {
+							role = "cancel"
+						}
+					}
+					add("DKG", id, exp, role, deadline, true)
 				}
 			default:
 				for ti, topic := range ph.Topics {
